@@ -55,24 +55,36 @@ func TestC09(t *testing.T) {
 		sb := store.New("B.store", w.Log)
 		Fill(sa, c.DAG, c.ReqHas)
 		Fill(sb, c.DAG, all)
+		other := gen.GenDAG(p.RNG("c09other", ci), gen.DagOpts{MinBlocks: 3, MaxBlocks: 7, Salt: fmt.Sprintf("c09o-%d", ci), Chain: true})
+		for k, bb := range other.Blocks {
+			sb.Put(k, bb)
+		}
 		A := w.AddGS("A", sa, NodeOpts{})
 		B := w.AddGS("B", sb, NodeOpts{})
 		T := w.AddRaw("T")
 		// the requestor's response hook behaves like a real consumer of an extension
 		var markerSeen int32
-		var markerFirstSeq int64 // logical time of the first sighting
-		sighting := func(kind int32) {
+		type sight struct {
+			id   graphsync.RequestID
+			at   int64
+			kind int32
+		}
+		var sgmu sync.Mutex
+		var sights []sight
+		sighting := func(kind int32, id graphsync.RequestID) {
 			atomic.StoreInt32(&markerSeen, kind)
-			atomic.CompareAndSwapInt64(&markerFirstSeq, 0, mon.Tick())
+			sgmu.Lock()
+			sights = append(sights, sight{id, mon.Tick(), kind})
+			sgmu.Unlock()
 		}
 		A.OnIncomingBlock = func(pp peer.ID, rs graphsync.ResponseData, b graphsync.BlockData, a graphsync.IncomingBlockHookActions) {
 			if _, ok := rs.Extension(thirdPartyMarker); ok {
-				sighting(1)
+				sighting(1, rs.RequestID())
 			}
 		}
 		A.OnResponse = func(pp peer.ID, rs graphsync.ResponseData, a graphsync.IncomingResponseHookActions) {
 			if _, ok := rs.Extension(thirdPartyMarker); ok {
-				sighting(2)
+				sighting(2, rs.RequestID())
 			}
 			if d, ok := rs.Extension(verifExt); ok && d != nil {
 				if s, err := d.AsString(); err == nil {
@@ -89,6 +101,8 @@ func TestC09(t *testing.T) {
 		injected := 0
 		kinds := map[string]int{}
 		reqID := graphsync.NewRequestID()
+		reqID2 := graphsync.NewRequestID()
+		dual := p.RNG("c09dual", ci).Intn(3) == 0 // a second request to the same responder runs alongside
 		inject := func() {
 			mu.Lock()
 			defer mu.Unlock()
@@ -123,7 +137,18 @@ func TestC09(t *testing.T) {
 					kind = "ext-that-makes-hook-update"
 				}
 				kinds[kind+"/"+st.String()]++
-				_ = RawSendResponse(T, A.ID, []gsmsg.GraphSyncResponse{gsmsg.NewResponse(reqID, st, md, exts...)}, blks)
+				resps := []gsmsg.GraphSyncResponse{gsmsg.NewResponse(reqID, st, md, exts...)}
+				if dual && r.Intn(2) == 0 {
+					// one message of the third peer carrying responses for both of the victim's requests
+					second := gsmsg.NewResponse(reqID2, allStatuses[r.Intn(len(allStatuses))], md, exts...)
+					if r.Intn(2) == 0 {
+						resps = []gsmsg.GraphSyncResponse{second, resps[0]}
+					} else {
+						resps = append(resps, second)
+					}
+					kinds["two-requests-in-one-message"]++
+				}
+				_ = RawSendResponse(T, A.ID, resps, blks)
 				injected++
 			}
 		}
@@ -142,10 +167,17 @@ func TestC09(t *testing.T) {
 			}
 		}
 		req := w.RequestWithID(reqID, A, B.ID, c.DAG.Root, c.Sel)
+		var reqB *Req
+		if dual {
+			reqB = w.RequestWithID(reqID2, A, B.ID, other.Root, gen.AllSelector())
+		}
 		if positions[0] {
 			inject()
 		}
 		hung, inc := AwaitDone(w, req)
+		if reqB != nil && inc == "" && !hung {
+			hung, inc = AwaitDone(w, reqB)
+		}
 		if inc == "" && !hung {
 			if ok, why := w.Quiesce(); !ok {
 				inc = why
@@ -178,38 +210,62 @@ func TestC09(t *testing.T) {
 			// recorded finding: once the requestor has finished the request (both channels closed) it no
 			// longer knows which peer the id belonged to, and a response carrying the id reaches the
 			// response hooks whoever sends it. Everything that happened while the request was live must hold.
-			closedAt := w.RetiredAt(req.ID) // reported by a hook in the request manager
-			afterFinish := func(seq int64) string {
-				if closedAt != 0 && seq > closedAt {
+			// recorded finding: once the requestor has retired a request it no longer knows which peer the
+			// id belonged to, and a response carrying the id reaches the response hooks whoever sends it.
+			// Everything that happens while the request concerned is in progress must hold.
+			aev := A.Events()
+			afterFinish := func(id graphsync.RequestID, seq int64) string {
+				// in progress = from the outgoing-request hook (the request manager has registered it) to
+				// its retirement (reported by a hook in the request manager)
+				start := int64(0)
+				for _, e := range aev {
+					if e.Kind == "outgoing-request-hook" && e.ID == id {
+						start = e.Seq
+						break
+					}
+				}
+				at := w.RetiredAt(id)
+				if start == 0 || seq < start || (at != 0 && seq > at) {
 					return "C09/third-party-response-after-request-finished"
 				}
 				return ""
 			}
 			for _, e := range A.Events() {
-				if e.Peer == T.ID && e.ID == req.ID && (e.Kind == "response-hook" || e.Kind == "block-hook") {
-					sig := afterFinish(e.Seq)
+				if e.Peer == T.ID && (e.ID == req.ID || e.ID == reqID2) && (e.Kind == "response-hook" || e.Kind == "block-hook") {
+					sig := afterFinish(e.ID, e.Seq)
 					if sig == "" {
 						sig = "C09/hook-saw-third-party-response"
 					}
 					rep.Violation(ci, sig, fmt.Sprintf("requestor %s invoked for the victim request with a response from a third peer (status %s)", e.Kind, e.Status), detail())
-					break
+					if sig == "C09/hook-saw-third-party-response" {
+						break
+					}
 				}
 			}
-			if ms := atomic.LoadInt32(&markerSeen); ms != 0 {
-				sig := afterFinish(atomic.LoadInt64(&markerFirstSeq))
-				if sig == "" || ms == 1 {
+			sgmu.Lock()
+			for _, sg := range sights {
+				sig := afterFinish(sg.id, sg.at)
+				if sig == "" || sg.kind == 1 {
 					sig = "C09/hook-saw-third-party-response-data"
 				}
-				rep.Violation(ci, sig, fmt.Sprintf("a requestor %s hook was handed response data (status/extensions) that came from the third peer", map[int32]string{1: "block", 2: "response"}[ms]), detail())
+				rep.Violation(ci, sig, fmt.Sprintf("a requestor %s hook was handed response data (status/extensions) that came from the third peer", map[int32]string{1: "block", 2: "response"}[sg.kind]), detail())
+				if sig == "C09/hook-saw-third-party-response-data" {
+					break
+				}
 			}
+			sgmu.Unlock()
 			for _, m := range w.Fab.Wire() {
 				if m.From == A.ID && m.To == T.ID {
-					sig := afterFinish(m.Seq)
-					if sig == "" {
-						sig = "C09/message-sent-to-third-party"
+					sig := "C09/third-party-response-after-request-finished"
+					for _, rq := range m.Requests {
+						if afterFinish(rq.ID, m.Seq) == "" {
+							sig = "C09/message-sent-to-third-party"
+						}
 					}
 					rep.Violation(ci, sig, "requestor sent a message to the third peer: "+fab.Brief(m), detail())
-					break
+					if sig == "C09/message-sent-to-third-party" {
+						break
+					}
 				}
 			}
 			if mm := CompareOutcome("C09", req, c.Exp, sa); mm != nil {
